@@ -418,6 +418,7 @@ class E1:
             yield from self.block(fn, fn.bmap[i.ops[0]["v"]], b, env, args, path); return
         c = self.val(i.ops[0], env, args, path)
         fls, tru = i.ops[1]["v"], i.ops[2]["v"]
+        if isinstance(c, tuple) and c[0] == "cmp" and (not isinstance(c[2], tuple) or not isinstance(c[3], tuple)): raise Unsupported("ptr compare")
         if isinstance(c, tuple) and c[0] == "cmp" and c[2][0] == "pint" and c[3][0] == "pint":
             # pointer difference compare handled via sub of pints elsewhere
             raise Unsupported("ptr compare")
